@@ -7,6 +7,14 @@ from wesym.contracts import seqchan
 from wesym import bmc
 
 
+import functools
+from wesym import coop
+
+
+def _coop_inst(preemptions, I):
+    coop.install(I, preemptions=preemptions)
+
+
 def main():
     t = tier()
     cfg = {'unwind': 2, 'unwind_all': 3, 'timeout_ms': 120000, 'chan_pool': 0, 'chan_pool_by_name': {'waiter': 2}}
@@ -35,8 +43,18 @@ def main():
     P3 = MOD + '.'
     c3.load([P3 + 'VerifC16Connectedness'])
     cfg3 = {'unwind': 2, 'unwind_all': 2, 'timeout_ms': 120000, 'chan_pool': 0, 'chan_pool_by_name': {'waiter': 1}}
-    res += c3.run_jobs([Job(P3 + 'VerifC16Connectedness', (sc,), cfg=cfg3, max_paths=100000) for sc in (0, 1)])
-    c2 = c3
+    if t != 'quick':
+        # in the quick tier the connectedness manager is decided by the coop jobs below (seconds, full memory model)
+        res += c3.run_jobs([Job(P3 + 'VerifC16Connectedness', (sc,), cfg=cfg3, max_paths=100000) for sc in (0, 1)])
+    c3.cleanup()
+    # the same manager with its real maps under the symbolic scheduler inside the interpreter (coop.py)
+    c4 = Check('C16', [MOD, MOD + '/internal/notify'], '', ['C16/zz_verif_c16_conn_coop.go'],
+               installers=[seqchan.install], prelude_pkgname='weshnet')
+    c4.load([P3 + 'VerifC16ConnCoop'])
+    pre = 2 if t == 'quick' else 3
+    res += c4.run_jobs([Job(P3 + 'VerifC16ConnCoop', (sc,), cfg={'unwind': 6, 'timeout_ms': 60000}, installers=[functools.partial(_coop_inst, pre)],
+                            max_paths=200000, label='VerifC16ConnCoop(%d)[pre<=%d]' % (sc, pre)) for sc in (0, 1, 2, 3)])
+    c2 = c4
     finish(c2, res, t,
            explanation='Schedule-symbolic bounded model checking (DESIGN section 4) of the real internal/notify (getChan, Wait, Broadcast), '
                        'pkg/lifecycle Manager (UpdateState, WaitForStateChange) and ConnectednessManager (AssociatePeer, UpdateState, WaitForConnectednessChange, updateStatus): every goroutine body is executed in open mode by the '
@@ -46,7 +64,8 @@ def main():
                        'assertion is reachable, and that no sequence cut by the unwinding bound can be run to its end.',
            bounds={'goroutines': '1-2 waiters + 1 updater (+ canceller)', 'unwind': 2, 'channels_made_per_goroutine': 2,
                    'connectedness': 'one waiter (current = {p1: Disconnected}) against AssociatePeer(g, p2) resp. UpdateState(p1, Connected); group and first peer set up sequentially; waiter loop cut after 2 iterations (unwinding assertion checked)',
-                   'outside': 'tinder peersCache; maps mutated concurrently (the BMC memory model makes scalar and channel-pointer cells visible; map contents are only read on the checked paths apart from the association itself); more goroutines; memory models weaker than sequential consistency'},
+                   'connectedness_coop': 'scenarios 0..3 (associate / update / associate+update / cancel) with the real maps under the symbolic scheduler of DESIGN 4b, preemption bound 2 (quick) / 3 (thorough); the BMC jobs of the connectedness manager run in the thorough tier only',
+                   'outside': 'tinder peersCache; for the BMC jobs: maps mutated concurrently (the BMC memory model makes scalar and channel-pointer cells visible; map contents are only read on the checked paths apart from the association itself); more goroutines; memory models weaker than sequential consistency'},
            assumptions=['sequential consistency', 'a select whose channel is closed or has a value can always complete'],
            trusted=['go/ssa lowering', 'wesym interpreter (open mode) + BMC composer', 'z3 5.1.0'])
 
